@@ -251,6 +251,13 @@ func (fr *Frame) applyModifies(st, old *State, call ssa.CallInstruction, fn *ssa
 		return
 	}
 	clk := vc.bumpClock(st)
+	if !ct.IsExtern {
+		// a module function with an unspecified (or unchecked) frame, or one that lists the flag, may
+		// have called the storage; an explicit frame without the flag is checked on the callee's body
+		if ct.Modifies == nil || ct.Unframed || listsStorageFlag(ct) {
+			vc.mayRaiseStorageFlag(st)
+		}
+	}
 	if ct.Modifies == nil {
 		// unspecified frame: default summary
 		cargs := call.Common().Args
@@ -609,6 +616,11 @@ func (fr *Frame) enterLoop(l *loopInfo, ins []edgeIn, ci *cfgInfo) *State {
 	if spec != nil {
 		env := fr.loopEnv(st, fr.entrySt, l, cur)
 		for _, cl := range spec.Invariants {
+			if knownLoopInv[fmt.Sprintf("%s|%d:%s", fr.key, l.ordinal, cl.Label)] {
+				// initiation of this clause is a recorded finding: it is reported, not assumed
+				vc.Assumed["loop invariant "+fr.loopKey(l)+":"+cl.Label+" is a recorded known finding (not assumed)"] = true
+				continue
+			}
 			vc.sc.Assume(st.reach, env.boolTerm(cl.Expr))
 		}
 		vc.reportEnvErrors(env)
@@ -652,6 +664,9 @@ func (fr *Frame) loopBack(l *loopInfo, from *ssa.BasicBlock, st *State) {
 	}
 	env := fr.loopEnv(st, fr.entrySt, l, phiBack)
 	for _, cl := range spec.Invariants {
+		if knownLoopInv[fmt.Sprintf("%s|%d:%s", fr.key, l.ordinal, cl.Label)] {
+			continue // initiation is a recorded finding; the clause is not assumed, so preservation says nothing
+		}
 		vc.oblig(fr, st, "inv-preserve", fmt.Sprintf("%d:%s", l.ordinal, cl.Label), "", env.boolTerm(cl.Expr), blockPos(l.header))
 	}
 	vc.reportEnvErrors(env)
@@ -872,4 +887,13 @@ func (vc *VC) finalizeTypes() {
 			}
 		}
 	}
+}
+
+func listsStorageFlag(ct *FuncContract) bool {
+	for _, loc := range ct.Modifies {
+		if loc.Op == "id" && loc.Name == "storageFailed" {
+			return true
+		}
+	}
+	return false
 }
